@@ -519,6 +519,29 @@ pub fn c16_cases(rng: &mut Rng, tier: &str) -> (Vec<Case>, bool) {
             cases.push(case_from(w, checks, "targeted".into(), true, t.replace('\n', " | ")));
         }
     }
+    // loops opened at the prompt: every immediate line has the same (immediate) location, an ill-typed FOR leaves its loop
+    // record behind; neither may ever give two open loops for one variable or let re-entered loops pile up
+    let prompt_loops: &[&[&str]] = &[
+        &["FOR J = 1 TO 1", "FOR I = 1 TO 1 STEP 1", "FOR J = 1 TO 1 STEP 1", "NEXT J", "NEXT J"],
+        &["FOR J = 1 TO 3", "FOR I = 1 TO 3", "FOR J = 1 TO 3", "FOR I = 1 TO 3", "NEXT I", "NEXT J", "NEXT J"],
+        &["FOR A$ = 1 TO 2", "FOR A$ = 1 TO 2", "FOR A$ = 1 TO 2", "FOR B = 1 TO 2", "NEXT B", "NEXT A$"],
+        &["10 FOR A$ = 1 TO 2", "GOTO 10", "GOTO 10", "GOTO 10", "GOTO 10", "FOR C = 1 TO 2", "NEXT C"],
+        &["FOR K = 1 TO 2", "X = 1", "FOR K = 1 TO 2", "X = 2", "FOR K = 5 TO 6", "NEXT K", "NEXT K", "NEXT K"],
+    ];
+    for seq in prompt_loops {
+        for reps in [1usize, 12] {
+            let mut w = Walk::new(false, false);
+            for _ in 0..reps {
+                for t in seq.iter() {
+                    w.start(t);
+                    let mut nr = 0;
+                    w.drive(&[], &mut nr, 10, true);
+                    w.op("snap");
+                }
+            }
+            cases.push(case_from(w, vec!["snap-caps".into(), "err-then-idle".into()], "loops-at-the-prompt".into(), true, format!("{} x{}", seq.join(" | "), reps)));
+        }
+    }
     // stopped exactly at / just below the cap, then one more frame from the PROMPT (the suspended program's frames are kept
     // at a breakpoint): GOSUB and FN calls typed in direct mode meet the same cap
     for depth in [30usize, 31, 32] {
@@ -985,8 +1008,22 @@ pub fn c17_cases(rng: &mut Rng, tier: &str) -> (Vec<Case>, bool) {
     let n = if tier == "thorough" { 2500 } else { 250 };
     let mut cases = vec![];
     let opts = GenOpts { allow_else_resume: false, ..Default::default() };
-    for _ in 0..n {
-        let p = program(rng, &opts);
+    // reads that resolve to an argument of an OUTER function call, to a variable assigned later, to an array created by
+    // the right-hand side of the very assignment that stores into it: when exactly is something "undeclared"?
+    let shaped: &[&[&str]] = &[
+        &["10 DEF FNA(X) = FNB(1)", "20 DEF FNB(Y) = X + Y", "30 PRINT FNA(5)", "40 PRINT FNB(2)"],
+        &["10 DEF FNA(X) = X + Q", "20 PRINT FNA(1)", "30 Q = 1", "40 PRINT FNA(1)"],
+        &["10 DEF FNA(X) = P(X) + P(X)", "20 PRINT FNA(1)", "30 PRINT P(2)"],
+        &["10 C(3) = C(3) + 1", "20 A(1) = A(2)", "30 DEF FNG(K) = T(K) + 1", "40 T(2) = FNG(1)", "50 PRINT C(3); A(1); T(2)"],
+        &["10 DEF FNA(X) = FNB(X) + FNC(X)", "20 DEF FNB(Y) = X * Y + Z", "30 DEF FNC(Z) = X + Y + Z", "40 PRINT FNA(2)", "50 Y = 1 : PRINT FNA(3)"],
+        &["10 FOR I = 1 TO 2 : PRINT J; N$(I) : NEXT I", "20 INPUT K", "30 PRINT K + L"],
+    ];
+    for k in 0..n + shaped.len() {
+        let p = if k < shaped.len() {
+            Program { lines: shaped[k].iter().map(|l| { let (n, t) = l.split_once(' ').unwrap(); (n.parse().unwrap(), t.to_string()) }).collect(), features: vec!["shaped"] }
+        } else {
+            program(rng, &opts)
+        };
         let replies = reply_pool(rng);
         let seed = rng.next() % 100000;
         let via_command = rng.chance(1, 3);
